@@ -202,6 +202,11 @@ func (w *world) tryBuild(defs []*Def) []*built {
 		res[k] = &built{def: d, status: "ok"}
 		wg.Add(1)
 		w.genRuns++
+		for _, p := range d.Pre {
+			if _, own := d.PreFlags[p]; own && !d.isHand(p) {
+				w.genRuns++
+			}
+		}
 		go func(k int, d *Def) {
 			defer wg.Done()
 			sem <- struct{}{}
@@ -233,8 +238,21 @@ func (w *world) tryBuild(defs []*Def) []*built {
 				files = append(files, in, genFile)
 				return true
 			}
-			if inner != nil && !runGen(inner, fmt.Sprintf("defs%dpre", k)) {
-				return
+			for pi, in := range inner {
+				base := fmt.Sprintf("defs%dpre", k)
+				if pi > 0 {
+					base = fmt.Sprintf("defs%dpre%d", k, pi)
+				}
+				if in.hand {
+					// a hand-written trait type: no invocation, the file just exists when the others run
+					f := filepath.Join(sub, base+".go")
+					os.WriteFile(f, []byte(handSource(in.def, "main")), 0o644)
+					files = append(files, f)
+					continue
+				}
+				if !runGen(in.def, base) {
+					return
+				}
 			}
 			if len(outer.Types) > 0 && !runGen(outer, fmt.Sprintf("defs%d", k)) {
 				return
@@ -400,6 +418,9 @@ func probeSource(defs []*Def) string {
 	b.WriteString("\treturn ok\n}\n\nvar probes = map[string]*probe{\n")
 	for _, d := range defs {
 		for _, t := range d.Types {
+			if d.isHand(t.Name) {
+				continue // not an enum: no generated API to probe
+			}
 			bits, signed, _, _ := kindInfo(t.Kind)
 			fmt.Fprintf(&b, "\t%q: newProbe[%s](Parse%s, %v, %d, map[string]traitP{\n", t.Name, t.Name, t.Name, signed, bits)
 			first, hasFirst := d.firstConst(t.Name)
